@@ -128,7 +128,7 @@ GHOST_SORTS = {}    # name -> z3 sort, declared by contracts via ghost()
 def ghost(name, sort):
     GHOST_SORTS[name] = {"seq_ev": SeqE, "int": I, "val": Val, "ctxmap": z3.ArraySort(I, Val),
                          "setval": SetV, "refset": z3.ArraySort(I, B), "refint": z3.ArraySort(I, I),
-                         "seq_val": SeqV}[sort]
+                         "seq_val": SeqV, "mapval": MapV}[sort]
 
 
 class Engine:
@@ -442,6 +442,12 @@ class Engine:
             return SV("none")
         if hint == "cls":
             return SV("cls", self.fresh(name, I))
+        if hint == "seqe":
+            return SV("seqe", self.fresh(name, SeqE))
+        if hint == "ev":
+            return SV("ev", self.fresh(name, Ev))
+        if hint == "seq":
+            return SV("seq", self.fresh(name, SeqV))
         r = self.fresh(name, I)
         return self.from_ref(st, r, hint)
 
@@ -567,6 +573,14 @@ class Engine:
             return sa == sb
         if a.k == "dict" and b.k == "dict":
             return self.dict_eq(self.dom_of(st, a), self.map_of(st, a), self.dom_of(st, b), self.map_of(st, b))
+        if a.k in ("sset", "cset") or b.k in ("sset", "cset"):
+            return self.as_sset(st, a) == self.as_sset(st, b)
+        if a.k == "ev" and b.k == "ev":
+            return a.t == b.t
+        if a.k == "garr" and b.k == "garr":
+            return a.t == b.t
+        if a.k == "seqe" and b.k == "seqe":
+            return a.t == b.t
         if a.k == "sdict" or b.k == "sdict":
             da, ma = self.as_sdict(st, a)
             db, mb = self.as_sdict(st, b)
